@@ -381,7 +381,7 @@ pub fn check(_ctx: &Ctx, input: &Input) -> CaseResult {
 fn run(ctx: &Ctx) {
     let plans = [GenPlan {
         gen: "names",
-        cases: ctx.tier.pick(4000, 200_000),
+        cases: ctx.tier.pick(20_000, 400_000),
         min_len: 0,
         max_len: ctx.tier.pick(1500, 3000),
     }];
